@@ -14,9 +14,15 @@ namespace PatchModel.C16
 open PatchModel PatchModel.DM
 
 /-- the paths a run may touch, given the (file to patch, output file) pairs of its sections: those two, the reject file, the backup
-    file, and the directories leading to any of them (created when missing, removed when emptied) -/
+    files of both, and the directories leading to any of them (created when missing, removed when emptied).
+
+    CHANGED with the model change "the source of a git rename is moved to its backup name under -b" (C++ fix "keep a backup of the file a rename moves away", `finalizeDeferred`):
+    the list was `[fo.1, fo.2, rejectPath o fo.2, backupName o fo.2]`; `backupName o fo.1` is new.  For every section but a rename
+    or copy (and for every section under -o) `fo.1 = fo.2` or the file to patch is only read, and before the fix a rename never
+    touched the backup name of its source.  With the old list the statement of `C16_paths` is false now: see
+    `C16_old_allowed_false` below (git rename of "a" to "b" under -b: the last operation is `rename a a.orig`). -/
 def allowedPath (o : Options) (s : DState) (p : Bytes) : Prop :=
-  ∃ fo ∈ s.sections, ∃ c ∈ [fo.1, fo.2, rejectPath o fo.2, backupName o fo.2],
+  ∃ fo ∈ s.sections, ∃ c ∈ [fo.1, fo.2, rejectPath o fo.2, backupName o fo.2, backupName o fo.1],
     p = absPath s c ∨ ∃ d ∈ dirPrefixes c, p = absPath s d
 
 /-- `absPath` as a function of the working directory -/
@@ -26,7 +32,7 @@ theorem absPath_eq (s : DState) (p : Bytes) : absPath s p = absC s.cwd p := rfl
 
 /-- `allowedPath` as a function of the working directory and the recorded sections -/
 def AllowedC (o : Options) (c : Bytes) (secs : List (Bytes × Bytes)) (p : Bytes) : Prop :=
-  ∃ fo ∈ secs, ∃ x ∈ [fo.1, fo.2, rejectPath o fo.2, backupName o fo.2],
+  ∃ fo ∈ secs, ∃ x ∈ [fo.1, fo.2, rejectPath o fo.2, backupName o fo.2, backupName o fo.1],
     p = absC c x ∨ ∃ d ∈ dirPrefixes x, p = absC c d
 
 theorem allowedPath_iff (o : Options) (s : DState) (p : Bytes) : allowedPath o s p ↔ AllowedC o s.cwd s.sections p := Iff.rfl
@@ -47,7 +53,7 @@ theorem OpAllowed.mono {o : Options} {c : Bytes} {secs secs' : List (Bytes × By
     file to patch of a recorded section, and the sections `req` are recorded -/
 def J (o : Options) (c : Bytes) (req : List (Bytes × Bytes)) (s : DState) : Prop :=
   s.cwd = c ∧ (∀ op ∈ s.trace, OpAllowed o c s.sections op) ∧ (∀ w ∈ s.dWrites, ∃ fo ∈ s.sections, w.dest = fo.2) ∧
-  (∀ p ∈ s.dRemovals, ∃ fo ∈ s.sections, p = fo.1) ∧ ∀ x ∈ req, x ∈ s.sections
+  (∀ p ∈ s.dRemovals, ∃ fo ∈ s.sections, p.1 = fo.1) ∧ ∀ x ∈ req, x ∈ s.sections
 
 theorem j_framed (o : Options) (c : Bytes) (req : List (Bytes × Bytes)) : Framed (J o c req) :=
   ⟨fun s s' h _ h2 h3 h4 h5 h6 _ => by unfold J at *; rw [h2, h3, h4, h5, h6]; exact h⟩
@@ -70,7 +76,7 @@ theorem j_createTemp (o : Options) (c : Bytes) (req : List (Bytes × Bytes)) : I
 
 section path
 variable {o : Options} {c : Bytes} {req : List (Bytes × Bytes)} {fo : Bytes × Bytes} {x : Bytes}
-  (hfo : fo ∈ req) (hx : x ∈ [fo.1, fo.2, rejectPath o fo.2, backupName o fo.2])
+  (hfo : fo ∈ req) (hx : x ∈ [fo.1, fo.2, rejectPath o fo.2, backupName o fo.2, backupName o fo.1])
 include hfo hx
 
 theorem j_file {s s' : DState} (hs : J o c req s) (hs' : J o c req s') : AllowedC o c s'.sections (absPath s x) :=
@@ -100,10 +106,19 @@ theorem j_rename {o : Options} {c : Bytes} {req : List (Bytes × Bytes)} {fo : B
   rcases hp with rfl | rfl
   · exact j_file (x := fo.2) hfo (by simp) hs hs'
   · exact j_file (x := backupName o fo.2) hfo (by simp) hs hs'
+/-- renaming the file to patch of a recorded section to its backup name (the source of a git rename under -b) -/
+theorem j_rename1 {o : Options} {c : Bytes} {req : List (Bytes × Bytes)} {fo : Bytes × Bytes} (hfo : fo ∈ req) :
+    RenameOk (J o c req) fo.1 (backupName o fo.1) := by
+  refine ⟨fun s hs => j_op fun s' hs' => Or.inr ?_⟩
+  intro p hp
+  simp only [FsOp.paths, List.mem_cons, List.not_mem_nil, or_false] at hp
+  rcases hp with rfl | rfl
+  · exact j_file (x := fo.1) hfo (by simp) hs hs'
+  · exact j_file (x := backupName o fo.1) hfo (by simp) hs hs'
 theorem j_sec (o : Options) (c a b : Bytes) : SecOk (J o c [(a, b)]) o a b := by
   have hm : (a, b) ∈ [(a, b)] := List.mem_singleton.2 rfl
   refine ⟨j_path hm (by simp), j_path hm (by simp), j_path hm (by simp), j_path hm (by simp), ⟨fun s hs => j_op fun s' hs' => Or.inr ?_⟩,
-    fun w hw => ⟨fun s hs => ?_⟩, ⟨fun s hs => ?_⟩⟩
+    fun w hw => ⟨fun s hs => ?_⟩, fun bk => ⟨fun s hs => ?_⟩⟩
   · intro p hp
     simp only [FsOp.paths, List.mem_cons, List.not_mem_nil, or_false] at hp
     rcases hp with rfl | rfl
@@ -162,7 +177,7 @@ theorem k_processPatchM (o : Options) :
     rw [h]; exact ⟨j_path hfo (by simp), j_path hfo (by simp), j_rename hfo⟩
   · intro p hp
     obtain ⟨fo, hfo, h⟩ := hs0.2.2.2.1 p hp
-    rw [h]; exact j_path hfo (by simp)
+    rw [h]; exact ⟨j_path hfo (by simp), fun _ => ⟨j_path hfo (by simp), j_rename1 hfo⟩⟩
   · intro s hs
     exact ⟨c, hs.1, hs.2.1, hs.2.2.1, hs.2.2.2.1, nofun⟩
 
@@ -178,6 +193,69 @@ theorem C16_paths (o : Options) (s0 : DState)
   rw [← hc] at this
   exact this
 
+/-! ### the statement with the allowed paths as they were before the backup of a rename's source is false now
+
+    `allowedPathOld` is `allowedPath` as it was up to the C++ fix "keep a backup of the file a rename moves away" (no
+    `backupName o fo.1`).  Counterexample: `patch -b -p1` on the git patch "rename a to b" in a tree that holds `a`: the one
+    section is `(a, b)`, the deferred write makes `b` (and its empty backup `b.orig`), then the source is moved to ITS backup
+    name: `rename a a.orig` — neither `a`, `b`, `b.rej` nor `b.orig`.  (Before the fix the last operation was `unlink a`, and the
+    content of `a` as it was could be found nowhere if the patch also changed it.) -/
+
+def allowedPathOld (o : Options) (s : DState) (p : Bytes) : Prop :=
+  ∃ fo ∈ s.sections, ∃ c ∈ [fo.1, fo.2, rejectPath o fo.2, backupName o fo.2],
+    p = absPath s c ∨ ∃ d ∈ dirPrefixes c, p = absPath s d
+
+/-- the widening only adds paths -/
+theorem allowedPath_of_old {o : Options} {s : DState} {p : Bytes} (h : allowedPathOld o s p) : allowedPath o s p := by
+  obtain ⟨fo, hfo, c, hc, r⟩ := h
+  refine ⟨fo, hfo, c, ?_, r⟩
+  simp only [List.mem_cons, List.not_mem_nil, or_false] at hc ⊢
+  rcases hc with h | h | h | h <;> simp [h]
+
+namespace Cex
+/-- "diff --git a/a b/b\nrename from a\nrename to b\n" -/
+def patchText : Bytes := [100, 105, 102, 102, 32, 45, 45, 103, 105, 116, 32, 97, 47, 97, 32, 98, 47, 98, 10,
+  114, 101, 110, 97, 109, 101, 32, 102, 114, 111, 109, 32, 97, 10, 114, 101, 110, 97, 109, 101, 32, 116, 111, 32, 98, 10]
+#guard patchText == str "diff --git a/a b/b\nrename from a\nrename to b\n"
+/-- the tree holds "a" = "x\n"; the patch comes on standard input -/
+def s0 : DState := { fs := { nodes := [([97], .file [120, 10] 0o644)] }, stdin := patchText }
+/-- `patch -b -p1` -/
+def o : Options := { defaultOptions with saveBackup := true, strip := 1 }
+
+/-- the run (kernel evaluation): exit status 0, one section `(a, b)`, last operation `rename a a.orig` -/
+theorem run : (runPatch o s0).1 = 0 ∧ (runPatch o s0).2.cwd = [] ∧ (runPatch o s0).2.sections = [([97], [98])] ∧
+    (runPatch o s0).2.trace = [.tmpCreate, .tmpUnlink, .tmpCreate, .tmpUnlink, .tmpCreate, .tmpUnlink,
+      .creat [98, 46, 111, 114, 105, 103], .creat [98], .write [98] [120, 10], .chmod [98] 0o644,
+      .rename [97] [97, 46, 111, 114, 105, 103]] ∧
+    (runPatch o s0).2.fs.nodes = [([98, 46, 111, 114, 105, 103], .file [] 0o644), ([98], .file [120, 10] 0o644),
+      ([97, 46, 111, 114, 105, 103], .file [120, 10] 0o644)] := by decide +kernel
+
+theorem not_allowed_old : ¬ allowedPathOld o (runPatch o s0).2 [97, 46, 111, 114, 105, 103] := by
+  rintro ⟨fo, hfo, c, hc, r⟩
+  rw [run.2.2.1, List.mem_singleton] at hfo
+  subst hfo
+  have hcwd : ∀ x, absPath (runPatch o s0).2 x = x := by intro x; unfold absPath; rw [run.2.1]; rfl
+  simp only [hcwd] at r
+  have hl : [([97], [98]).1, ([97], [98]).2, rejectPath o ([97], [98]).2, backupName o ([97], [98]).2] =
+      ([[97], [98], [98, 46, 114, 101, 106], [98, 46, 111, 114, 105, 103]] : List Bytes) := by decide +kernel
+  rw [hl] at hc
+  have hc' : c = [97] ∨ c = [98] ∨ c = [98, 46, 114, 101, 106] ∨ c = [98, 46, 111, 114, 105, 103] := by
+    simpa using hc
+  rcases hc' with rfl | rfl | rfl | rfl <;> revert r <;> decide
+end Cex
+
+/-- the statement of `C16_paths` with the old set of allowed paths does not hold any more -/
+theorem C16_old_allowed_false :
+    ¬ ∀ (o : Options) (s0 : DState), s0.trace = [] ∧ s0.sections = [] ∧ s0.dWrites = [] ∧ s0.dRemovals = [] ∧ s0.cwd = [] →
+      ∀ op ∈ (runPatch o s0).2.trace, op.isTmp = true ∨ ∀ p ∈ op.paths, allowedPathOld o (runPatch o s0).2 p := by
+  intro h
+  have h1 := h Cex.o Cex.s0 ⟨rfl, rfl, rfl, rfl, rfl⟩ (.rename [97] [97, 46, 111, 114, 105, 103])
+    (by rw [Cex.run.2.2.2.1]; simp)
+  rcases h1 with h1 | h1
+  · cases h1
+  · exact Cex.not_allowed_old (h1 _ (by simp [FsOp.paths]))
+
 end PatchModel.C16
 
 #print axioms PatchModel.C16.C16_paths
+#print axioms PatchModel.C16.C16_old_allowed_false
